@@ -160,25 +160,35 @@ def stored(v):
 
 
 def sql_lit(v):
-    """literal text the harness writes into an op.execute("...") statement"""
-    if v is None:
+    """canonical literal text for the value SQLite stores: written into op.execute("...") strings and (for numbers)
+    into server_default=sa.text(...)"""
+    m = stored(v)
+    if m[0] == "null":
         return "NULL"
-    k, x = v
-    if k == "i":
-        return str(x)
-    if k == "b":
-        return "1" if x else "0"
-    if k == "s":
-        return "'" + x.replace("'", "''") + "'"
-    if k == "f":
-        return repr(float(x))
-    if k == "d":
-        return x
-    if k == "date":
-        return "'" + x + "'"
-    if k == "dt":
-        return "'" + datetime.datetime.fromisoformat(x).strftime("%Y-%m-%d %H:%M:%S.%f") + "'"
-    raise AssertionError(v)
+    if m[0] == "int":
+        return str(m[1])
+    if m[0] == "num":
+        return m[1]
+    return "'" + m[1].replace("'", "''") + "'"
+
+
+# literal texts of op.execute strings for string columns, as the user writes them: text() turns "\\:" into ":";
+# a colon that would read as a bind parameter (":name" after a non-word character) is never left unescaped
+EXEC_TEXTS = ["'12:30'", "'at \\:noon'", "'\\:x y'", "'a\\:b'", "'back\\slash'", "'it''s'", "'\\\\:z'", "'x\\:1:2'", "'semi;colon'",
+              "'new\nline'", "'uni\u00e9\u4e2d'", "''", "' a: b'", "'q'':'", "'?'", "'\\:'", "'10:20:30'", "'\\:a\\:b'", "'$\\:v'", "NULL",
+              "'dq\"uote'", "' lead'", "'--c'", "'/*x*/'"]
+
+
+def parse_sql_lit(t):
+    """a DEFAULT literal as PRAGMA table_info reports it -> model value"""
+    import re
+    if t.startswith("'") and t.endswith("'") and len(t) >= 2:
+        return ("text", t[1:-1].replace("''", "'"))
+    if t == "NULL":
+        return ("null",)
+    if re.fullmatch(r"-?[0-9]+", t):
+        return ("int", int(t))
+    return ("num", t)
 
 
 def db_value(x):
@@ -249,7 +259,12 @@ def gen_history(rnd, tier, tabs=False, invalid=False):
         def new_cols(m):
             out = []
             for _ in range(m):
-                out.append([ctr["c"], rnd.randrange(len(TYPES))])
+                ty = rnd.randrange(len(TYPES))
+                dflt = None
+                if rnd.random() < 0.4:
+                    while dflt is None or (dflt[0] == "s" and ("%" in dflt[1])):
+                        dflt = gen_value(rnd, ty, tabs)
+                out.append([ctr["c"], ty, dflt])
                 ctr["c"] += 1
             return out
 
@@ -258,15 +273,18 @@ def gen_history(rnd, tier, tabs=False, invalid=False):
             rows = []
             for _ in range(rnd.choice([0, 1, 1, 2, 3, 5]) if not execonly else 1):
                 row = {}
-                for c, ty in keys:
-                    v = gen_value(rnd, ty, tabs)
+                for c, ty, dflt in keys:
                     if execonly:
-                        for _try in range(20):
-                            if v is None or v[0] != "s" or exec_ok_string(v[1]):
-                                break
-                            v = gen_value(rnd, ty, tabs)
+                        if ty in (T_STR, T_TEXT):
+                            v = rnd.choice(EXEC_TEXTS)
+                            if tabs and rnd.random() < 0.4:
+                                v = "'tab\there'"
                         else:
-                            v = None
+                            v = sql_lit(gen_value(rnd, ty))
+                    else:
+                        v = gen_value(rnd, ty, tabs)
+                        if dflt is not None and rnd.random() < 0.35:
+                            v = None           # explicit None for a column that has a server default
                     row[str(c)] = v
                 rows.append(row)
             return keys, rows
@@ -286,7 +304,7 @@ def gen_history(rnd, tier, tabs=False, invalid=False):
             r = rnd.random()
             if r < 0.40:
                 keys, rows = rows_for(cols)
-                up.append(["bi", t, [[c, ty] for c, ty in keys], rows])
+                up.append(["bi", t, [[c, ty] for c, ty, _ in keys], rows])
             elif r < 0.55:
                 c = new_cols(1)[0]
                 up.append(["ac", t, c])
@@ -297,15 +315,14 @@ def gen_history(rnd, tier, tabs=False, invalid=False):
                 ic = rnd.sample(cols, rnd.randint(1, min(2, len(cols))))
                 ix = ctr["ix"]
                 ctr["ix"] += 1
-                up.append(["ci", ix, t, [c for c, _ in ic]])
+                up.append(["ci", ix, t, [c[0] for c in ic]])
                 own_ix.append([ix, t])
             elif r < 0.84:
                 keys, rows = rows_for(cols, execonly=True)
-                allc = dict((c, ty) for c, ty in cols)
                 if rnd.random() < 0.6:
                     up.append(["xi", t, rows[0]])
                 elif rnd.random() < 0.7:
-                    c, ty = keys[0]
+                    c = keys[0][0]
                     up.append(["xu", t, c, rows[0][str(c)]])
                 else:
                     up.append(["xd", t])
@@ -323,7 +340,7 @@ def gen_history(rnd, tier, tabs=False, invalid=False):
             t, cols = rnd.choice(anc_tabs)
             if rnd.random() < 0.6:
                 keys, rows = rows_for(cols)
-                dn.append(["bi", t, [[c, ty] for c, ty in keys], rows])
+                dn.append(["bi", t, [[c, ty] for c, ty, _ in keys], rows])
             else:
                 dn.append(["xd", t])
         for ix, it in own_ix:
@@ -370,7 +387,7 @@ def gen_history(rnd, tier, tabs=False, invalid=False):
                 kind = rnd.randrange(4)
                 own_t = [o[1] for o in r["up"] if o[0] == "ct"]
                 if kind == 0 and own_t:
-                    body.insert(rnd.randint(0, len(body)), ["ct", own_t[0], [[10 ** 6, 0]]])          # maybe existing
+                    body.insert(rnd.randint(0, len(body)), ["ct", own_t[0], [[10 ** 6, 0, None]]])          # maybe existing
                 elif kind == 1:
                     body.insert(rnd.randint(0, len(body)), ["di", 10 ** 6])                           # no such index
                 elif kind == 2:
@@ -392,9 +409,9 @@ def _registered(fid):
         return False
 
 
-WITNESS_TAB = {"revs": [{"id": 0, "down": [], "deps": [], "up": [["ct", 0, [[0, T_TEXT]]], ["bi", 0, [[0, T_TEXT]], [{"0": ["s", "tab\there"]}]]],
+WITNESS_TAB = {"revs": [{"id": 0, "down": [], "deps": [], "up": [["ct", 0, [[0, T_TEXT, None]]], ["bi", 0, [[0, T_TEXT]], [{"0": ["s", "tab\there"]}]]],
                          "dn": [["dt", 0]]}], "cmd": "upgrade", "start": None, "end": "heads", "raw": "", "tabs": True}
-_ONE = [{"id": 0, "down": [], "deps": [], "up": [["ct", 0, [[0, T_INT]]], ["bi", 0, [[0, T_INT]], [{"0": ["i", 1]}]]], "dn": [["dt", 0]]}]
+_ONE = [{"id": 0, "down": [], "deps": [], "up": [["ct", 0, [[0, T_INT, None]]], ["bi", 0, [[0, T_INT]], [{"0": ["i", 1]}]]], "dn": [["dt", 0]]}]
 # `upgrade base:base --sql` emits a lone DROP TABLE alembic_version
 WITNESS_EMPTY_PLAN = {"revs": _ONE, "cmd": "upgrade", "start": None, "end": "base", "raw": "", "tabs": False}
 # a database at base that still has its (empty) version table: the offline CREATE TABLE alembic_version fails
@@ -447,9 +464,13 @@ def classify(human, out):
         for o in r["up"] + r["dn"]:
             if o[0] == "bi" and any(has_tab(v) for row in o[3] for v in row.values()):
                 return FINDING_TAB
-            if o[0] == "xi" and any(has_tab(v) for v in o[2].values()):
+            if o[0] == "xi" and any("\t" in w for w in o[2].values()):
                 return FINDING_TAB
-            if o[0] == "xu" and has_tab(o[3]):
+            if o[0] == "xu" and "\t" in o[3]:
+                return FINDING_TAB
+            if o[0] == "ct" and any(has_tab(c[2]) for c in o[2]):
+                return FINDING_TAB
+            if o[0] == "ac" and has_tab(o[2][2]):
                 return FINDING_TAB
     return None
 
@@ -496,14 +517,23 @@ def rname(r):
     return "r%d" % r
 
 
+def col_src(c):
+    cid, ty, dflt = c
+    if dflt is None:
+        return "sa.Column(%r, %s)" % (cname(cid), TYPES[ty])
+    if dflt[0] in ("s", "date", "dt"):
+        return "sa.Column(%r, %s, server_default=%r)" % (cname(cid), TYPES[ty], stored(dflt)[1])
+    return "sa.Column(%r, %s, server_default=sa.text(%r))" % (cname(cid), TYPES[ty], sql_lit(dflt))
+
+
 def op_src(o):
     k = o[0]
     if k == "ct":
-        return "op.create_table(%r, %s)" % (tname(o[1]), ", ".join("sa.Column(%r, %s)" % (cname(c), TYPES[ty]) for c, ty in o[2]))
+        return "op.create_table(%r, %s)" % (tname(o[1]), ", ".join(col_src(c) for c in o[2]))
     if k == "dt":
         return "op.drop_table(%r)" % tname(o[1])
     if k == "ac":
-        return "op.add_column(%r, sa.Column(%r, %s))" % (tname(o[1]), cname(o[2][0]), TYPES[o[2][1]])
+        return "op.add_column(%r, %s)" % (tname(o[1]), col_src(o[2]))
     if k == "ci":
         return "op.create_index(%r, %r, [%s])" % (iname(o[1]), tname(o[2]), ", ".join(repr(cname(c)) for c in o[3]))
     if k == "di":
@@ -514,11 +544,11 @@ def op_src(o):
         return "op.bulk_insert(%s, %s)" % (tab, rows)
     if k == "xi":
         return "op.execute(%r)" % ("INSERT INTO %s (%s) VALUES (%s)" % (
-            tname(o[1]), ", ".join(cname(int(c)) for c in o[2]), ", ".join(sql_lit(v) for v in o[2].values())))
+            tname(o[1]), ", ".join(cname(int(c)) for c in o[2]), ", ".join(o[2].values())))
     if k == "xd":
         return "op.execute(%r)" % ("DELETE FROM %s" % tname(o[1]))
     if k == "xu":
-        return "op.execute(%r)" % ("UPDATE %s SET %s = %s" % (tname(o[1]), cname(o[2]), sql_lit(o[3])))
+        return "op.execute(%r)" % ("UPDATE %s SET %s = %s" % (tname(o[1]), cname(o[2]), o[3]))
     raise AssertionError(o)
 
 
@@ -552,9 +582,9 @@ def read_db(path):
             if ty == "table":
                 cols = []
                 for cid, cn, cty, notnull, dflt, pk in con.execute("pragma table_info(%s)" % name):
-                    if notnull or dflt is not None or pk:
+                    if notnull or pk:
                         raise AssertionError("unexpected column attributes in %s.%s" % (name, cn))
-                    cols.append([int(cn[1:]), PRAGMA_TYPES.index(cty)])
+                    cols.append([int(cn[1:]), PRAGMA_TYPES.index(cty), None if dflt is None else list(parse_sql_lit(dflt))])
                 rows = [[db_value(x) for x in row] for row in con.execute("select * from %s order by rowid" % name)]
                 tabs.append({"t": int(name[1:]), "cols": cols, "rows": rows})
             elif ty == "index":
@@ -586,8 +616,16 @@ def canon_obs(o):
             "raw": sorted(x.replace("\t", "    ") for x in o["raw"])}
 
 
-def coq_cols(cols):
-    return cf.lst("mkCol %d %d" % (c, ty) for c, ty in cols)
+def coq_ovalue(m):
+    return "None" if m is None else "(Some %s)" % coq_value(tuple(m))
+
+
+def coq_cols(cols, conv=lambda d: d):
+    return cf.lst("mkCol %d %d %s" % (c, ty, coq_ovalue(conv(d))) for c, ty, d in cols)
+
+
+def _sd(d):
+    return None if d is None else stored(d)
 
 
 def coq_table(t):
@@ -651,7 +689,7 @@ class _Plan:
 def encode_steps(human, plan, startdb):
     """Coq term for the plan; bulk_insert dicts become full-width rows (absent key = NULL) against the schema at that point"""
     byid = {r["id"]: r for r in human["revs"]}
-    schema = {t["t"]: [c for c, _ in t["cols"]] for t in startdb["tabs"]}
+    schema = {t["t"]: [c[0] for c in t["cols"]] for t in startdb["tabs"]}
     out = []
     nrows = 0
     for st in plan.steps:
@@ -659,13 +697,13 @@ def encode_steps(human, plan, startdb):
         for o in byid[st["rev"]]["up" if st["up"] else "dn"]:
             k = o[0]
             if k == "ct":
-                ops.append("CreateTable %d %s" % (o[1], coq_cols(o[2])))
-                schema.setdefault(o[1], [c for c, _ in o[2]])
+                ops.append("CreateTable %d %s" % (o[1], coq_cols(o[2], _sd)))
+                schema.setdefault(o[1], [c[0] for c in o[2]])
             elif k == "dt":
                 ops.append("DropTable %d" % o[1])
                 schema.pop(o[1], None)
             elif k == "ac":
-                ops.append("AddColumn %d (mkCol %d %d)" % (o[1], o[2][0], o[2][1]))
+                ops.append("AddColumn %d (mkCol %d %d %s)" % (o[1], o[2][0], o[2][1], coq_ovalue(_sd(o[2][2]))))
                 if o[1] in schema and o[2][0] not in schema[o[1]]:
                     schema[o[1]] = schema[o[1]] + [o[2][0]]
             elif k == "ci":
@@ -674,26 +712,27 @@ def encode_steps(human, plan, startdb):
                 ops.append("DropIndex %d" % o[1])
             elif k in ("bi", "xi"):
                 cols = schema.get(o[1])
+                conv = (lambda v: coq_value(stored(v))) if k == "bi" else cf.string
                 rows = []
                 for row in (o[3] if k == "bi" else [o[2]]):
                     if cols is None:
-                        rows.append([stored(v) for v in row.values()])
+                        rows.append(["(Some %s)" % conv(v) for v in row.values()])
+                    elif not set(int(c) for c in row) <= set(cols):
+                        # names a column the table does not have (only after an injected inapplicable statement):
+                        # SQLite rejects the INSERT; a row of the wrong width makes the model reject it too
+                        rows.append(["None"] * (len(cols) + 1))
                     else:
-                        if not set(int(c) for c in row) <= set(cols):
-                            # names a column the table does not have (only after an injected inapplicable statement):
-                            # SQLite rejects the INSERT; a row of the wrong width makes the model reject it too
-                            rows.append([("null",)] * (len(cols) + 1))
-                            continue
-                        rows.append([stored(row[str(c)]) if str(c) in row else ("null",) for c in cols])
+                        # per column of the table: None = the dict has no such key (the INSERT omits the column)
+                        rows.append(["(Some %s)" % conv(row[str(c)]) if str(c) in row else "None" for c in cols])
                 nrows += len(rows)
                 if k == "bi":
-                    ops.append("BulkInsert %d %s" % (o[1], cf.lst(cf.lst(coq_value(v) for v in r) for r in rows)))
+                    ops.append("BulkInsert %d %s" % (o[1], cf.lst(cf.lst(r) for r in rows)))
                 else:
-                    ops.append("Execute (RInsert %d %s)" % (o[1], cf.lst(coq_value(v) for v in rows[0])))
+                    ops.append("Execute (RInsert %d %s)" % (o[1], cf.lst(rows[0])))
             elif k == "xd":
                 ops.append("Execute (RDeleteAll %d)" % o[1])
             elif k == "xu":
-                ops.append("Execute (RUpdateAll %d %d %s)" % (o[1], o[2], coq_value(stored(o[3]))))
+                ops.append("Execute (RUpdateAll %d %d %s)" % (o[1], o[2], cf.string(o[3])))
             else:
                 raise AssertionError(o)
         bk = []
